@@ -18,7 +18,7 @@ func init() {
 		ID: "C08", Level: "exploration", PanicClause: "C08.panic",
 		Cases: func(tier string) int {
 			if tier == "quick" {
-				return 8000
+				return 16000
 			}
 			return 600000
 		},
